@@ -257,3 +257,11 @@ Fixpoint guard_prefix (P : list pkgid) (NM : list name) (s : sstate) (ops : list
   | [] => 0
   | o :: ops' => if guard_step P NM s o then S (guard_prefix P NM (sstep s o) ops') else 0
   end.
+(* length of the longest prefix that is guarded AND keeps the name discipline (NM = VN ++ FN): the
+   domain of the refinement theorem *)
+Fixpoint sorted_guard_prefix (P : list pkgid) (VN FN : list name) (s : sstate) (ops : list op) : nat :=
+  match ops with
+  | [] => 0
+  | o :: ops' => if sorted_op VN FN o && guard_step P (VN ++ FN) s o
+                 then S (sorted_guard_prefix P VN FN (sstep s o) ops') else 0
+  end.
